@@ -1,13 +1,21 @@
 import PbVerif.Model.Proto
 import PbVerif.Model.Whittaker
+import PbVerif.Model.LoopS
 namespace PbVerif.Drv.C06
-open PbVerif PbVerif.Proto PbVerif.Whittaker
+open PbVerif PbVerif.Proto PbVerif.Whittaker PbVerif.Loop
 
 def showMat (m : List (List Rat)) : String :=
   if m.isEmpty then "-" else ";".intercalate (m.map showRats)
 def kind? : String → Option Kind
   | "std" => some .std | "iasls" => some .iasls | "drpls" => some .drpls | "aspls" => some .aspls | _ => none
 def b (s : String) : Bool := s == "1"
+
+def reasonStr : Stop → String
+  | .converged => "converged" | .exhausted => "exhausted" | .early => "early"
+def optNat : Option Nat → String
+  | some k => toString k | none => "-"
+/-- the t-th character of a decision string as a digit (missing = 0) -/
+def digitAt (s : String) (t : Nat) : Nat := match s.toList[t]? with | some c => c.toNat - '0'.toNat | none => 0
 
 def handle : List String → Option String
   | ["c06.asm", kind, n, d, lam, p1, f1, f2, w, alpha] => do
@@ -44,6 +52,25 @@ def handle : List String → Option String
       let v ← parseList? parseRat? v
       let r := backwardErrorDense (doc2d m n (← dr.toNat?) (← dc.toNat?) (← parseRat? lamr) (← parseRat? lamc) w) (m * n) v (List.zipWith (· * ·) w y)
       some s!"{showRat r.1} {showRat r.2}"
+  | ["c06.loop", budget, tol, ds, exitAt] => do
+      -- ds: the recorded differences; exitAt: index of the pass whose rule signalled the early exit, or N
+      let ds ← parseList? parseRat? ds
+      let e : Option Nat := if exitAt == "N" then none else exitAt.toNat?
+      let r := runIdx (← budget.toNat?) (← parseRat? tol) (fun k => ds.getD k 0) (fun k => e == some k)
+      some s!"{r.len} {reasonStr r.stop} {r.state} {optNat r.base}"
+  | ["c06.brloop", maxIter, maxIter2, inner, outer] => do
+      -- inner: one digit per solve (0 continue, 1 converged, 2 early exit); outer: digit w = 1 iff the outer loop stops with weights w
+      let r := brIdx (← maxIter.toNat?) (← maxIter2.toNat?) (digitAt inner) (fun w => digitAt outer w == 1)
+      some s!"{optNat r.1} {r.2}"
+  | ["c06.jbloop", budget, stops] => do
+      let r := jbIdx (← budget.toNat?) (fun k => digitAt stops k == 1)
+      match r.1 with
+      | some (v, sg, _, _) => some s!"{r.2.1} {reasonStr r.2.2} {v} {sg}"
+      | none => some s!"{r.2.1} {reasonStr r.2.2} - -"
+  | ["c06.asmjbcd", n, d, c, diag, lower, reversed] => do
+      some (showMat (asmJbcd (← n.toNat?) (← d.toNat?) (← parseRat? c) (← parseRat? diag) (b lower) (b reversed)))
+  | ["c06.asm2d", m, n, dr, dc, lamr, lamc, w] => do
+      some (showMat (asm2dRows (← m.toNat?) (← n.toNat?) (← dr.toNat?) (← dc.toNat?) (← parseRat? lamr) (← parseRat? lamc) (← parseList? parseRat? w)))
   | _ => none
 
 end PbVerif.Drv.C06
